@@ -401,6 +401,23 @@ pub fn gen_history(pid: &str, rng: &mut Rng, uni: &Universe, stats: &mut Stats) 
             98 => h.push(AOp::GetPeers { ns }),
             _ => h.push(AOp::HasNews { ns, heads: vec![(uni.authors[au].id().to_bytes(), now)] }),
         }
+        // C12: an entry that was delivered before arrives again (gossip delivers once per neighbour, and
+        // once more after a reconciliation): through the single-entry path
+        if c12 && rng.chance(1, 7) {
+            let mut earlier: Vec<([u8; 32], WEntry)> = Vec::new();
+            for o in &h {
+                match o {
+                    AOp::InsertRemote { ns, w, .. } => earlier.push((*ns, w.clone())),
+                    AOp::SyncProcess { ns, m, .. } => for p in &m.parts { if let WPart::Item { values, .. } = p { for (w, _) in values { earlier.push((*ns, w.clone())); } } },
+                    _ => {}
+                }
+            }
+            if !earlier.is_empty() {
+                let (ns, w) = rng.pick(&earlier).clone();
+                stats.inc("redelivery");
+                h.push(AOp::InsertRemote { ns, w, st: rng.below(3) as u8, now: T0 + 10 });
+            }
+        }
     }
     h
 }
